@@ -47,13 +47,33 @@ impl Signer {
     pub fn is_available(&self) -> bool { self.available }
     pub async fn seal_block(&self, b: &Block) -> anyhow::Result<Consensus> { self.log.push(2); self.sealed.set(Some(*b)); if self.seal_fails { Err(anyhow!("seal")) } else { Ok(Consensus(b.height.0 as u64 ^ 0xabc)) } }
 }
-pub struct Importer { pub fails: bool, pub committed: Cell<Option<(Block, Consensus)>>, pub log: Arc<Log> }
+pub struct Importer { pub fails: bool, pub committed: Cell<Option<(Block, Consensus)>>, pub log: Arc<Log>,
+    // reconciliation side: what latest_block_height answers (before / after an import attempt), which reconciliation import fails, what was imported
+    pub db_height: Cell<Option<u32>>, pub db_height_after_import: Option<u32>, pub db_read_fails: bool, pub fail_import_of: Option<u32>, pub imported: RefCell<[u32; 3]>, pub n_imported: Cell<usize> }
 impl Importer {
     pub async fn commit_result(&self, r: Uncommitted<ImportResult, Changes>) -> anyhow::Result<()> {
         self.log.push(3); self.committed.set(Some((r.0.sealed.entity, r.0.sealed.consensus)));
         if self.fails { Err(anyhow!("import")) } else { Ok(()) }
     }
+    pub fn latest_block_height(&self) -> anyhow::Result<Option<BlockHeight>> { if self.db_read_fails { Err(anyhow!("db")) } else { Ok(self.db_height.get().map(BlockHeight)) } }
+    pub async fn execute_and_commit(&self, b: SealedBlock) -> anyhow::Result<()> {
+        let h = b.entity.height.0;
+        let k = self.n_imported.get(); if k < 3 { self.imported.borrow_mut()[k] = h; } self.n_imported.set(k + 1);
+        if self.db_height_after_import.is_some() { self.db_height.set(self.db_height_after_import); }
+        if self.fail_import_of == Some(h) { Err(anyhow!("exec")) } else { Ok(()) }
+    }
 }
+impl BlockHeight { pub fn succ(self) -> Option<BlockHeight> { self.0.checked_add(1).map(BlockHeight) } }
+impl From<BlockHeight> for u32 { fn from(h: BlockHeight) -> u32 { h.0 } }
+impl Block { pub fn header(&self) -> &Block { self } pub fn height(&self) -> &BlockHeight { &self.height } pub fn time(&self) -> Tai64 { self.time } }
+/// at most two blocks to reconcile, iterated like the Vec the real port returns
+pub struct Blocks { pub items: [Option<SealedBlock>; 2], pub i: usize }
+impl Iterator for Blocks { type Item = SealedBlock; fn next(&mut self) -> Option<SealedBlock> { while self.i < 2 { let it = self.items[self.i].take(); self.i += 1; if it.is_some() { return it } } None } }
+pub enum LeaderState { UnreconciledBlocks(Blocks), ReconciledLeader, ReconciledFollower }
+pub enum TaskNextAction { Continue, Stop, ErrorContinue(anyhow::Error) }
+pub struct Reconciliation { pub answer: Cell<Option<LeaderState>>, pub fails: bool, pub asked_for: Cell<Option<u32>> }
+impl Reconciliation { pub async fn leader_state(&self, next: BlockHeight) -> anyhow::Result<LeaderState> { self.asked_for.set(Some(next.0)); if self.fails { return Err(anyhow!("port")) } Ok(self.answer.take().unwrap_or(LeaderState::ReconciledFollower)) } }
+pub async fn sleep_until(_d: Instant) {}
 pub struct Producer { pub fails: bool, pub asked: Cell<Option<(BlockHeight, Tai64)>>, pub log: Arc<Log> }
 
 //@ extract crates/services/consensus_module/poa/src/config.rs enum Trigger keep_attrs=1
@@ -62,13 +82,19 @@ pub struct Producer { pub fails: bool, pub asked: Cell<Option<(BlockHeight, Tai6
 //@ extract crates/services/consensus_module/poa/src/service.rs enum RequestType
 //@ end
 
-pub struct MainTask<C> { signer: Arc<Signer>, block_producer: Producer, block_importer: Importer, last_height: BlockHeight, last_timestamp: Tai64, last_block_created: Instant, trigger: Trigger, clock: C }
+pub struct MainTask<C> { reconciliation_port: Reconciliation, reconciliation_watermark: Arc<std::sync::atomic::AtomicU32>, normal_production_calls: Cell<u32>, signer: Arc<Signer>, block_producer: Producer, block_importer: Importer, last_height: BlockHeight, last_timestamp: Tai64, last_block_created: Instant, trigger: Trigger, clock: C }
 
 impl<C: GetTime> MainTask<C> {
 //@ extract crates/services/consensus_module/poa/src/service.rs MainTask::next_time
 //@ end
 //@ extract crates/services/consensus_module/poa/src/service.rs MainTask::produce_block
 //@ end
+//@ extract crates/services/consensus_module/poa/src/service.rs MainTask::next_height
+//@ end
+//@ extract crates/services/consensus_module/poa/src/service.rs MainTask::try_to_produce_block
+//@ end
+    // contract of handle_normal_block_production (trigger handling + produce_block): recorded
+    async fn handle_normal_block_production(&mut self, _deadline: Instant) -> TaskNextAction { self.normal_production_calls.set(self.normal_production_calls.get() + 1); TaskNextAction::Continue }
     // contract of signal_produce_block (block producer port + timeout + sleep): asked once, answers a block for exactly the
     // requested height and time, or an error
     async fn signal_produce_block(&self, height: BlockHeight, block_time: Tai64, _source: TransactionsSource, _deadline: Instant) -> anyhow::Result<UncommittedExecutionResult<Changes>> {
@@ -150,9 +176,9 @@ fn c24_next_time() {
 #[cfg(kani)]
 fn mk_task(h: u32, last: Tai64, created: Instant, trigger: Trigger, now: Tai64, available: bool, pf: bool, sf: bool, imf: bool) -> MainTask<Clock> {
     let log = Arc::new(Log { events: RefCell::new([0; 4]), n: Cell::new(0) });
-    MainTask { signer: Arc::new(Signer { available, seal_fails: sf, sealed: Cell::new(None), log: log.clone() }),
+    MainTask { reconciliation_port: Reconciliation { answer: Cell::new(None), fails: false, asked_for: Cell::new(None) }, reconciliation_watermark: Arc::new(std::sync::atomic::AtomicU32::new(0)), normal_production_calls: Cell::new(0), signer: Arc::new(Signer { available, seal_fails: sf, sealed: Cell::new(None), log: log.clone() }),
         block_producer: Producer { fails: pf, asked: Cell::new(None), log: log.clone() },
-        block_importer: Importer { fails: imf, committed: Cell::new(None), log },
+        block_importer: Importer { fails: imf, committed: Cell::new(None), log, db_height: Cell::new(None), db_height_after_import: None, db_read_fails: false, fail_import_of: None, imported: RefCell::new([0; 3]), n_imported: Cell::new(0) },
         last_height: BlockHeight(h), last_timestamp: last, last_block_created: created, trigger, clock: Clock { now } }
 }
 
@@ -199,6 +225,81 @@ fn c24_produce_block() {
     }
     core::mem::forget(r);
 }
+
+// try_to_produce_block: the reconciliation path. The task's height follows the database, never goes backwards, advances to a
+// reconciled block only after that block was imported successfully, and a failed import never advances it (beyond what
+// the database itself reports).
+#[cfg(kani)]
+fn reconcile_case(kind: u8, n_blocks: u8) {
+    let (h0, t0): (u32, u64) = (kani::any(), kani::any());
+    kani::assume(h0 < u32::MAX - 4);
+    let mut task = mk_task(h0, Tai64(t0), Instant { tick: 0, elapsed: Duration::ZERO }, Trigger::Never, Tai64(0), true, false, false, false);
+    let db0: Option<u32> = if kani::any() { Some(kani::any()) } else { None };
+    task.block_importer.db_height.set(db0);
+    task.block_importer.db_read_fails = kani::any();
+    let db_read_fails = task.block_importer.db_read_fails;
+    let db_after: Option<u32> = if kani::any() { Some(kani::any()) } else { None };
+    task.block_importer.db_height_after_import = db_after;
+    let fail_of: Option<u32> = if kani::any() { Some(kani::any()) } else { None };
+    task.block_importer.fail_import_of = fail_of;
+    let (b1h, b1t, b2h, b2t): (u32, u64, u32, u64) = (kani::any(), kani::any(), kani::any(), kani::any());
+    let mkb = |h: u32, t: u64| SealedBlock { entity: Block { height: BlockHeight(h), time: Tai64(t) }, consensus: Consensus(0) };
+    let answer = match kind { 0 => LeaderState::ReconciledFollower, 1 => LeaderState::ReconciledLeader,
+        _ => LeaderState::UnreconciledBlocks(Blocks { items: [if n_blocks >= 1 { Some(mkb(b1h, b1t)) } else { None }, if n_blocks >= 2 { Some(mkb(b2h, b2t)) } else { None }], i: 0 }) };
+    task.reconciliation_port.answer.set(Some(answer));
+    task.reconciliation_port.fails = kani::any();
+    let port_fails = task.reconciliation_port.fails;
+    let r = kani::block_on(task.try_to_produce_block(Instant { tick: 0, elapsed: Duration::ZERO }));
+    let ok = r.is_ok();
+    core::mem::forget(r);
+    // reference: height after syncing with the database
+    let synced = match db0 { Some(d) if !db_read_fails && d > h0 => d, _ => h0 };
+    kani::assert(task.reconciliation_port.asked_for.get() == Some(synced + 1), "[C24.poa-time.reconcile.leader-state-asked-for-the-height-right-after-the-latest-known-one]");
+    kani::assert(ok == !port_fails, "[C24.poa-time.reconcile.fails-only-if-the-reconciliation-port-fails]");
+    // walk the blocks
+    let mut h = synced; let mut t = t0; let mut want_imports: [u32; 3] = [0; 3]; let mut wi = 0usize;
+    if !port_fails && kind == 2 {
+        let bs = [(b1h, b1t), (b2h, b2t)];
+        let mut i = 0;
+        while i < 2 {
+            if i < n_blocks as usize {
+                let (bh, bt) = bs[i];
+                if bh > h {
+                    want_imports[wi] = bh; wi += 1;
+                    if fail_of == Some(bh) {
+                        // failed import: only a re-sync with what the database reports now
+                        let dbn = if db_after.is_some() { db_after } else { db0 };
+                        if let Some(d) = dbn { if !db_read_fails && d > h { h = d; } }
+                    } else { h = bh; t = bt; }
+                }
+            }
+            i += 1;
+        }
+    }
+    if kind == 2 && n_blocks == 2 { kani::cover!(wi == 2 && fail_of == Some(b1h), "[C24.poa-time.reconcile.cover-first-import-fails-second-proceeds]"); }
+    kani::assert(task.last_height == BlockHeight(h) && task.last_timestamp == Tai64(t), "[C24.poa-time.reconcile.height-advances-only-by-successful-imports-or-the-databases-own-height]");
+    kani::assert(task.last_height.0 >= h0, "[C24.poa-time.reconcile.height-never-goes-backwards]");
+    let imp = *task.block_importer.imported.borrow();
+    kani::assert(task.block_importer.n_imported.get() == wi && (wi < 1 || imp[0] == want_imports[0]) && (wi < 2 || imp[1] == want_imports[1]), "[C24.poa-time.reconcile.only-blocks-above-the-latest-known-height-are-imported-in-order]");
+    kani::assert(task.normal_production_calls.get() == (if !port_fails && kind == 1 { 1 } else { 0 }), "[C24.poa-time.reconcile.blocks-are-produced-only-as-reconciled-leader]");
+}
+
+//@ harness kind=bounded tier=quick bound="at most 2 blocks to reconcile per call" timeout=1200 extra="-Z async-lib --default-unwind 4"
+#[cfg(kani)]
+#[kani::proof]
+fn c24_reconcile_follower() { reconcile_case(0, 0); }
+//@ harness kind=bounded tier=quick bound="at most 2 blocks to reconcile per call" timeout=1200 extra="-Z async-lib --default-unwind 4"
+#[cfg(kani)]
+#[kani::proof]
+fn c24_reconcile_leader() { reconcile_case(1, 0); }
+//@ harness kind=bounded tier=quick bound="at most 2 blocks to reconcile per call" timeout=1200 extra="-Z async-lib --default-unwind 4"
+#[cfg(kani)]
+#[kani::proof]
+fn c24_reconcile_one_block() { reconcile_case(2, 1); }
+//@ harness kind=bounded tier=quick bound="at most 2 blocks to reconcile per call" timeout=1200 extra="-Z async-lib --default-unwind 4"
+#[cfg(kani)]
+#[kani::proof]
+fn c24_reconcile_two_blocks() { reconcile_case(2, 2); }
 
 // Vacuity canary
 //@ harness kind=canary tier=quick expect=C24.poa-time.canary.time-never-advances timeout=900
